@@ -57,6 +57,16 @@
 (*           pattern variable with its ellipsis structure                  *)
 (*     pair  two rules from a list of overlapping patterns, both orders    *)
 (*           (first matching rule wins)                                    *)
+(*     intf  interference histories on ONE engine: define macro A, define  *)
+(*           macro B, use B, use A, use B again (several unit layouts),    *)
+(*           A and B from shapes that SHARE the pattern-variable spellings *)
+(*           v, a, k but give them different roles (ellipsis variable vs   *)
+(*           plain variable, depth 1 vs depth 2, literal vs variable,      *)
+(*           plain variable inside an ellipsis sub-template, operand an    *)
+(*           atom vs a parenthesised form of equal / unequal length).  The *)
+(*           expansion of a use depends only on its macro's definition and *)
+(*           the use: the model checks (IntfConsistent) that the same use  *)
+(*           is expected to emit the same value at every position.         *)
 (*                                                                         *)
 (* Domain restrictions / named deviations of Steel adopted on purpose      *)
 (*   H1  `if let lambda define quote begin set!` are reserved words of     *)
@@ -92,6 +102,7 @@ CONSTANTS CTXS,      \* use-site context kinds explored (subset of AllCtxs)
           PATLEN,    \* max number of element patterns in the pattern grammar
           INLEN,     \* max number of input elements in the input grammar
           PAIRS,     \* TRUE: also the two-rule (first match wins) family
+          INTF,      \* history shapes of the interference family (subset of AllHists; {} = off)
           ELEMKINDS, \* element pattern kinds of the pattern grammar (subset of AllElemKinds)
           INKINDS    \* input element kinds of the input grammar (subset of AllInKinds)
 
@@ -453,7 +464,7 @@ XE(f, bd, ms, c) ==
 GlobalNames == {"my-or", "swap!", "my-let1", "m-lam", "m-idef", "rep", "m-lets", "m-rec", "my-for",
                 "use-g", "use-g2", "helper", "gv", "use-kw", "m-outer", "m-inner", "sum-acc", "defk", "defm",
                 "gen", "my-cond", "def-it", "def-tmp", "fn0", "fn1", "mm", "my-let*", "m-do", "m-o2", "m-i2",
-                "m-two", "k-else", "wrap", "def-fn", "m-pv", "m-pk", "m-bb", "m-op", "m-set"}
+                "m-two", "k-else", "wrap", "def-fn", "m-pv", "m-pk", "m-bb", "m-op", "m-set", "ia", "ib"}
 RId(n) == IF n \in GlobalNames THEN n \o "@@" ELSE n
 RECURSIVE Rs(_)
 RsSeq(es) == Join([i \in 1..Len(es) |-> Rs(es[i])], " ")
@@ -880,8 +891,94 @@ MatchTag(p) == IF p.fam = "match"
                       \o "/itl=" \o ToString(p.itl) \o "/sh=" \o ToString(p.sh)
                  ELSE "pair/" \o ToString(p.a) \o "-" \o ToString(p.b) \o "/itl=" \o ToString(p.itl)
 
-Program(p) == IF p.fam \in {"hyg", "nest"} THEN HygProgram(p) ELSE MatchProgram(p)
-TagOf(p)   == IF p.fam \in {"hyg", "nest"} THEN HygTag(p) ELSE MatchTag(p)
+(* 6d. Interference family.  Shapes share the spellings v, a, k.  A shape is *)
+(*     [tag, lits, rules, uses]; uses are operand lists.                     *)
+Vv == y("v")
+Kk == y("k")
+Shape(tag, lits, rules, uses) == [tag |-> tag, lits |-> lits, rules |-> rules, uses |-> uses]
+N12 == L(<<num(1), num(2)>>)
+N123 == L(<<num(1), num(2), num(3)>>)
+Q89 == q(L(<<num(8), num(9)>>))
+L89 == L(<<num(8), num(9)>>)
+Shapes ==
+  << \* v plain, a ellipsis; v is used INSIDE the ellipsis sub-template next to a
+     Shape("v0-a1", << >>,
+           <<Rule(Pat(<<Vv, L(<<A, DOTS>>)>>), Sl(<<y("list"), Call("cons", <<Vv, A>>), DOTS>>))>>,
+           << <<num(7), N12>>, <<Q89, N12>>, <<Call("list", <<num(8), num(9), num(10)>>), N12>>, <<Q89, Nil0>> >>),
+     \* roles swapped: a plain, v ellipsis
+     Shape("a0-v1", << >>,
+           <<Rule(Pat(<<A, L(<<Vv, DOTS>>)>>), Sl(<<y("list"), Call("cons", <<A, Vv>>), DOTS>>))>>,
+           << <<num(7), N12>>, <<Q89, N123>> >>),
+     \* both ellipsis variables, zipped
+     Shape("v1-a1", << >>,
+           <<Rule(Pat(<<L(<<Vv, DOTS>>), L(<<A, DOTS>>)>>), Sl(<<y("list"), Call("cons", <<Vv, A>>), DOTS>>))>>,
+           << <<N12, L(<<num(3), num(4)>>)>>, <<Nil0, Nil0>>, <<L(<<Q89, num(5)>>), L(<<num(3), num(4)>>)>> >>),
+     \* v depth 1, a depth 2
+     Shape("v1-a2", << >>,
+           <<Rule(Pat(<<L(<<Vv, A, DOTS>>), DOTS>>), q(L(<<L(<<A, DOTS, Vv>>), DOTS>>)))>>,
+           << <<N123, L(<<num(4)>>)>>, <<L(<<L(<<y("x"), y("y")>>), num(2)>>), L(<<num(5), num(6)>>)>>, << >> >>),
+     \* v depth 0 repeated inside a's ellipsis, quoted
+     Shape("v0-a1q", << >>,
+           <<Rule(Pat(<<Vv, A, DOTS>>), q(L(<<Vv, L(<<A, Vv>>), DOTS>>)))>>,
+           << <<num(7), num(1), num(2)>>, <<L89, num(1), num(2)>>, <<L89>> >>),
+     \* v is a LITERAL here
+     Shape("v-lit", <<Vv>>,
+           <<Rule(Pat(<<Vv, A>>), Call("list", <<q(y("lit")), A>>)),
+             Rule(Pat(<<Kk, A>>), Call("list", <<Kk, A>>))>>,
+           << <<Vv, num(1)>>, <<num(7), num(1)>>, <<Q89, num(2)>> >>),
+     \* a is a LITERAL here, v an ellipsis variable
+     Shape("a-lit-v1", <<A>>,
+           <<Rule(Pat(<<A, Vv, DOTS>>), q(L(<<y("lit-a"), Vv, DOTS>>))),
+             Rule(Pat(<<Kk, Vv, DOTS>>), q(L(<<y("other"), Kk, Vv, DOTS>>)))>>,
+           << <<A, num(1), num(2)>>, <<num(5), N12, num(3)>> >>),
+     \* v depth 2, a depth 0
+     Shape("v2-a0", << >>,
+           <<Rule(Pat(<<L(<<L(<<Vv, DOTS>>), DOTS>>), A>>), q(L(<<A, L(<<Vv, DOTS>>), DOTS>>)))>>,
+           << <<L(<<N12, L(<<num(3)>>)>>), num(7)>>, <<Nil0, L89>>, <<L(<<L(<<y("x")>>)>>), y("a")>> >>),
+     \* no ellipsis at all; the last use has the wrong shape (syntax error)
+     Shape("v0-a0", << >>,
+           <<Rule(Pat(<<Vv, A>>), Call("list", <<Vv, A>>))>>,
+           << <<num(7), num(1)>>, <<Q89, q(N12)>>, <<num(1)>> >>),
+     \* v depth 0 inside a depth-2 sub-template
+     Shape("v0-a2", << >>,
+           <<Rule(Pat(<<Vv, L(<<A, DOTS>>), DOTS>>), q(L(<<L(<<L(<<Vv, A>>), DOTS>>), DOTS>>)))>>,
+           << <<num(7), N12, L(<<num(3)>>)>>, <<L89, N12, Nil0>> >>) >>
+
+AllHists == {"sep", "one", "late", "pack", "expr", "rep", "redef"}
+\* dA dB: definitions, uA uB: (emit use); UA UB: the bare uses
+IntfUnits(h, dA, dB, UA, UB) ==
+  LET uA == EmitF(UA)
+      uB == EmitF(UB) IN
+  CASE h = "sep"  -> << <<dA>>, <<dB>>, <<uB>>, <<uA>>, <<uB>> >>
+    [] h = "one"  -> << <<dA, dB, uB, uA, uB>> >>
+    [] h = "late" -> << <<dA>>, <<uA>>, <<dB>>, <<uB>>, <<uA>>, <<uB>> >>
+    [] h = "pack" -> << <<dA, dB>>, <<uB, uA>>, <<uA, uB>> >>
+    [] h = "expr" -> << <<dA>>, <<dB>>, <<EmitF(Call("list", <<UB, UA, UB>>))>>, <<uA>> >>
+    [] h = "rep"  -> << <<dB>>, <<dA>>, <<uA, uA>>, <<uB>>, <<uB, uA, uB>>, <<uA>> >>
+    \* "redef": B's rules REPLACE A's under the same keyword ia (dB and UB are built with that name)
+    [] h = "redef" -> << <<dA>>, <<uA>>, <<dB>>, <<uB>>, <<uB>> >>
+\* which use each emit of each unit observes
+IntfLabels(h) ==
+  CASE h = "sep"  -> << << >>, << >>, <<"B">>, <<"A">>, <<"B">> >>
+    [] h = "one"  -> << <<"B", "A", "B">> >>
+    [] h = "late" -> << << >>, <<"A">>, << >>, <<"B">>, <<"A">>, <<"B">> >>
+    [] h = "pack" -> << << >>, <<"B", "A">>, <<"A", "B">> >>
+    [] h = "expr" -> << << >>, << >>, <<"BAB">>, <<"A">> >>
+    [] h = "rep"  -> << << >>, << >>, <<"A", "A">>, <<"B">>, <<"B", "A", "B">>, <<"A">> >>
+    [] h = "redef" -> << << >>, <<"A">>, << >>, <<"B">>, <<"B">> >>
+IntfProgram(p) ==
+  LET sa == Shapes[p.sa]
+      sb == Shapes[p.sb]
+      nb == IF p.h = "redef" THEN "ia" ELSE "ib" IN
+  IntfUnits(p.h, DefSyn("ia", sa.lits, sa.rules), DefSyn(nb, sb.lits, sb.rules),
+            Sl(<<y("ia")>> \o sa.uses[p.ua]), Sl(<<y(nb)>> \o sb.uses[p.ub]))
+IntfTag(p) == "intf/" \o p.h \o "/" \o Shapes[p.sa].tag \o "+" \o Shapes[p.sb].tag
+              \o "/ua=" \o ToString(p.ua) \o "/ub=" \o ToString(p.ub)
+
+Program(p) == IF p.fam \in {"hyg", "nest"} THEN HygProgram(p)
+              ELSE IF p.fam = "intf" THEN IntfProgram(p) ELSE MatchProgram(p)
+TagOf(p)   == IF p.fam \in {"hyg", "nest"} THEN HygTag(p)
+              ELSE IF p.fam = "intf" THEN IntfTag(p) ELSE MatchTag(p)
 
 -----------------------------------------------------------------------------
 (* 7. Top-level state machine.  phase = "expand": source unit hui is being   *)
@@ -896,6 +993,9 @@ HInit ==
            PatValid(pt) /\ MatchValid(p) /\ hc = p
      \/ PAIRS /\ \E a, b \in 1..Len(PairPats) : \E ie \in SeqsUpTo(INKINDS, INLEN) : \E itl \in BOOLEAN :
            hc = [fam |-> "pair", a |-> a, b |-> b, ie |-> ie, itl |-> itl]
+     \/ \E h \in INTF : \E sa, sb \in 1..Len(Shapes) :
+           \E ua \in 1..Len(Shapes[sa].uses) : \E ub \in 1..Len(Shapes[sb].uses) :
+             hc = [fam |-> "intf", h |-> h, sa |-> sa, sb |-> sb, ua |-> ua, ub |-> ub]
   /\ hui = 0 /\ todo = << >> /\ cur = << >> /\ macros = [n \in {} |-> 0] /\ ctr = 0 /\ synerr = << >>
   /\ phase = "expand" /\ bstack = << >> /\ nodes = 0 /\ units = << >> /\ InitCommon
 
@@ -964,6 +1064,14 @@ SynErrSilent == \A i \in 1..Len(synerr) : (synerr[i] /\ i <= Len(out)) => out[i]
 \* every global name the library defines is rendered with the per-case suffix
 GlobalsSuffixed == \A i \in 1..Len(units) : \A j \in 1..Len(units[i]) :
                       units[i][j].k = "def" => units[i][j].n \in GlobalNames
+
+\* the expected observation of a use does not depend on its position in the history
+IntfConsistent ==
+  (phase = "done" /\ hc.fam = "intf") =>
+    LET labs == IntfLabels(hc.h)
+        ok(i, j) == i \in 1..Len(units) /\ outcome[i] = "ok" /\ Len(out[i]) = Len(labs[i]) /\ j <= Len(labs[i])
+        pairs == {<<labs[i][j], out[i][j]>> : <<i, j>> \in {x \in (1..Len(units)) \X (1..3) : ok(x[1], x[2])}}
+    IN \A x, z \in pairs : x[1] = z[1] => x[2] = z[2]
 
 RECURSIVE RsUnit(_)
 RsUnit(fs) == Join([i \in 1..Len(fs) |-> Rs(fs[i])], " ")
